@@ -181,6 +181,37 @@ pub fn unary_float<S: Src>(s: &mut S) {
     s.check(same(Float(x).decrement(), finite_or_none(x - 1.0)), "finite_or_none");
 }
 
+
+/// C07: `**` on integers never panics, whatever base and exponent (no claim about the value here: that is
+/// power_int, thorough tier - this harness only carries Kani's own overflow / shift / index checks)
+pub fn power_no_panic_int<S: Src>(s: &mut S) {
+    let a = s.i32();
+    let b = s.i32();
+    let r = Integer(a).power(Integer(b));
+    s.check(b >= 0 || r.is_none(), "negative_exponent_is_none");
+}
+
+/// C09: division by zero is undefined whatever the representation of the zero (integer 0, +0.0, -0.0) and whatever
+/// the dividend (including zero itself: 0/0 must not come back as a not-a-number)
+pub fn zero_divisor_is_none<S: Src>(s: &mut S) {
+    let a = any_num(s);
+    s.assume(!is_nan(a));
+    let z = if s.bool() { Integer(0) } else if s.bool() { Float(0.0) } else { Float(-0.0) };
+    s.check(a.divide(z).is_none(), "zero_divisor_is_none");
+    s.check(a.integer_divide(z).is_none(), "zero_divisor_is_none");
+}
+
+/// C09: no operation hands back a non-finite float for finite operands (mixed and float operands; `**` and `%` on
+/// floats are libm calls CBMC does not model and are excluded)
+pub fn results_are_finite<S: Src>(s: &mut S) {
+    let a = any_num(s);
+    let b = any_num(s);
+    s.assume(finite(a) && finite(b));
+    s.assume(is_float(a) || is_float(b));
+    let r = match s.i32() { 0 => a.plus(b), 1 => a.subtract(b), _ => a.divide(b) };
+    s.check(match r { Some(n) => finite(n), None => true }, "finite_or_none");
+}
+
 // ---- C11 ----
 pub fn eq_reflexive_symmetric<S: Src>(s: &mut S) {
     let a = any_num(s);
